@@ -72,7 +72,7 @@ SMap.meth_update = lambda self, cx, other: smap_update(cx, self, other)  # dict.
 class SchemaMagicInit(FnSpec):
     file = "schema/core.py"
     qual = "SchemaMagic.__init__"
-    props = ("C12",)
+    props = ("C12", "C13")
 
     def setup(self, cx):
         me = ClsObj("SchemaMagicInstance", name="self")
@@ -1276,7 +1276,12 @@ def build_c20_schema(reg):
 
 def build_c13(reg):
     reg.method_bindings[("SchemaMagic", "super.__new__")] = pydantic_new
-    specs = [CheckTypes(), IsPubInstanceField(), DetectFieldOverrides(), CheckOverrides(), IsSubtype(), SchemaMagicNew(), MakeMandatory()]
+    # what a new class starts with (C12's contract): the constants of EVERY base - also for the marker subclass handed out for a version-less
+    # request, whose first base is the marker - so that a constant pinning an inherited field is forced on every handle of the schema
+    reg.set_class_home("SchemaMagicInstance", "schema/core.py", "SchemaMagic")
+    reg.method_bindings[("SchemaMagic", "super.__init__")] = lambda cx, obj, name, bases, dct: cx.effect("parent-metaclass-init", name, bases, dct)
+    reg.attr_bindings[("SchemaMagicInstance", "__dict__")] = lambda cx, o: ObjDict2(o)
+    specs = [CheckTypes(), IsPubInstanceField(), DetectFieldOverrides(), CheckOverrides(), IsSubtype(), SchemaMagicNew(), MakeMandatory(), SchemaMagicInit()]
     for s in specs:
         reg.add(s)
     return specs
